@@ -262,6 +262,9 @@ fn me(o: &mut Obs, m: &ME) {
                     ADSBVersion::DOC9871AppendixA => 0,
                     ADSBVersion::DOC9871AppendixB => 1,
                     ADSBVersion::DOC9871AppendixC => 2,
+                    // a variant the pinned enum does not have (an added catch-all) is projected apart from the named ones
+                    #[allow(unreachable_patterns)]
+                    _ => 99,
                 })
             };
             match os {
